@@ -129,7 +129,7 @@ def key_unit(a, b, wrap):
     def unit(U):
         def body(it):
             _install(it)
-            grid = Instance(None, {}, name="grid")
+            grid = Instance(None, {"num_axes": 1, "periodic": [False], "axes": ["x"]}, name="grid")
             hm = it.get_function(CACHE, "hash_mutable")
             objs = []
             for name in (a, b):
@@ -138,13 +138,15 @@ def key_unit(a, b, wrap):
                 if wrap == "bare":
                     o = bc
                 else:
+                    # containers are created by their real __init__ (attributes the code adds are present)
+                    bc.attrs["upper"], other.attrs["upper"] = False, True
                     pcls = it.module_attr(it.load_module("pde.grids.boundaries.axis"), "BoundaryPair")
-                    pair = Instance(pcls, {"low": bc, "high": other, "grid": grid, "axis": 0})
+                    pair = it.instantiate(pcls, [bc, other], {})
                     if wrap == "pair":
                         o = pair
                     else:
                         lcls = it.module_attr(it.load_module("pde.grids.boundaries.axes"), "BoundariesList")
-                        o = Instance(lcls, {"_axes": [pair], "grid": grid})
+                        o = it.instantiate(lcls, [[pair]], {})
                 # the key of a cached call:  hash_key(((grid, operator, bcs), kwargs))
                 objs.append(it.call(hm, [((grid, "laplace", o), {"backend": "numba"})], {}))
             return objs
@@ -158,6 +160,54 @@ def key_unit(a, b, wrap):
             k1, k2 = res.value
             U.prove(f"{nm}.equal_keys=>same_boundary_condition_class", P, z3.BoolVal(not (k1 == k2)),
                     info={"witness": f"{a} and {b} with identical attributes ({wrap})"})
+        U.assume_note("hash() is collision free on the values that reach cache keys (injective constructor)")
+
+    return unit
+
+
+def mutation_unit(wrap):
+    """the key of an operator request is computed from the conditions as they are at the time of the request: after
+    the value stored in a condition object changed (value setter, link_value, ...), the same container object gets a
+    different key.  Containers are created by their real __init__ (so attributes the code adds are present)."""
+    def unit(U):
+        def body(it):
+            _install(it)
+            grid = Instance(None, {"num_axes": 1, "periodic": [False], "axes": ["x"]}, name="grid")
+            hm = it.get_function(CACHE, "hash_mutable")
+            bc = _bc(it, "DirichletBC", grid)
+            other = _bc(it, "DirichletBC", grid)
+            for b, up in ((bc, False), (other, True)):
+                b.attrs["upper"] = up
+            del bc.attrs["value"]
+            bc.attrs["_value"] = z3.Real("value_at_first_request")
+            o = bc
+            if wrap != "bare":
+                pcls = it.module_attr(it.load_module("pde.grids.boundaries.axis"), "BoundaryPair")
+                o = it.instantiate(pcls, [bc, other], {})
+                if wrap == "list":
+                    lcls = it.module_attr(it.load_module("pde.grids.boundaries.axes"), "BoundariesList")
+                    o = it.instantiate(lcls, [[o]], {})
+            k1 = it.call(hm, [((grid, "laplace", o), {"backend": "numba"})], {})
+            k1b = it.call(hm, [((grid, "laplace", o), {"backend": "numba"})], {})
+            bc.attrs["_value"] = z3.Real("value_at_second_request")
+            k2 = it.call(hm, [((grid, "laplace", o), {"backend": "numba"})], {})
+            return k1, k1b, k2
+
+        n = 0
+        for p, res in enumerate(explore_paths(U, body)):
+            P = prem_of(res.ctx)
+            nm = f"path{p}"
+            if res.outcome != "return":
+                U.prove(f"{nm}.returns_normally", P, z3.BoolVal(False), info={"exc": str(res.exc)})
+                continue
+            n += 1
+            k1, k1b, k2 = res.value
+            v1, v2 = z3.Real("value_at_first_request"), z3.Real("value_at_second_request")
+            U.prove(f"{nm}.unchanged_conditions=>same_key", P, z3.BoolVal(k1 == k1b))
+            U.prove(f"{nm}.changed_value=>key_computed_from_the_current_value", P + [v1 != v2], z3.Not(_payload_eq(k1, k2)),
+                    info={"replay_payload": {"mutated_container": wrap}})
+            U.cover(f"{nm}.pre.cover", P + [v1 != v2])
+        U.prove("has_normal_paths", [], z3.BoolVal(n >= 1))
         U.assume_note("hash() is collision free on the values that reach cache keys (injective constructor)")
 
     return unit
@@ -260,6 +310,14 @@ def _payload_eq(a, b):
         return z3.And(*[_payload_eq(x, y) for x, y in zip(a, b)]) if a else z3.BoolVal(True)
     if isinstance(a, tuple) and isinstance(b, tuple) and len(a) == 2 and len(b) == 2 and isinstance(a[0], str) and isinstance(b[0], str) and a[0] == b[0] == "repr-of-number":
         return to_z3(a[1]) == to_z3(b[1])  # numbers hashed through their representation: no collisions
+    if isinstance(a, (set, frozenset)) and isinstance(b, (set, frozenset)):
+        # hashed dictionaries: sets of (key, hash of value) with concrete keys -> match by key
+        da, db = ({e[0]: e[1] for e in x if isinstance(e, tuple) and len(e) == 2 and isinstance(e[0], str)} for x in (a, b))
+        if len(da) == len(a) and len(db) == len(b):
+            if set(da) != set(db):
+                return z3.BoolVal(False)
+            return z3.And(*[_payload_eq(da[k], db[k]) for k in sorted(da)]) if da else z3.BoolVal(True)
+        return z3.BoolVal(a == b)
     if is_sym(a) or is_sym(b):
         # numbers that reach the builtin hash(): equal hashes for equal numbers and for the pair -1 / -2 (CPython)
         from fractions import Fraction
@@ -394,6 +452,7 @@ def wrapper_unit(U):
 UNITS = [(f"key_injectivity[{a}|{b},{w}]", key_unit(a, b, w)) for a, b in PAIRS for w in ("bare", "pair", "list")] + [
     *[(f"numeric_arguments_get_distinct_keys[{w}]", numeric_key_unit(w)) for w in ("keyword", "positional", "nested")],
     *[(f"grid_cache_hash[{k}]", grid_hash_unit(k)) for k in ("CartesianGrid", "PolarSymGrid", "SphericalSymGrid", "CylindricalSymGrid")],
+    *[(f"mutated_conditions_get_a_new_key[{w}]", mutation_unit(w)) for w in ("bare", "pair", "list")],
     ("get_boundary_conditions_returns_fresh_objects", fresh_conditions_unit),
     ("key_determinism", same_object_same_key), ("rebinding_data_invalidates_cached_helpers", rebinding_unit), ("cache_wrapper", wrapper_unit)]
 
